@@ -108,7 +108,7 @@ Notation section := (section P).
 Fixpoint wf (lo : Z) (s : sections) : Prop :=
   match s with
   | [] => True
-  | (a, (d, _)) :: t => lo <= a /\ 0 < len d /\ a + len d < U64 /\ wf (a + len d) t
+  | (a, (d, _)) :: t => lo <= a /\ 0 < len d /\ a + len d <= U64 /\ wf (a + len d) t
   end.
 
 Fixpoint abs (s : sections) : amap P :=
@@ -134,7 +134,7 @@ Proof.
   apply (IH (a + len d)); [assumption|lia].
 Qed.
 
-Lemma abs_some_bound s : forall lo x r, wf lo s -> abs s x = Some r -> lo <= x /\ x + 1 < U64.
+Lemma abs_some_bound s : forall lo x r, wf lo s -> abs s x = Some r -> lo <= x /\ x < U64.
 Proof.
   induction s as [|[a [d p]] t IH]; intros lo x r W E; [discriminate|].
   cbn in W. destruct W as (W1 & W2 & W3 & W4). cbn [abs] in E. unfold overwrite in E.
@@ -194,7 +194,7 @@ Section SetMemory.
 Variables (ad n : Z).
 Hypothesis Had : 0 <= ad.
 Hypothesis Hn : 0 < n.
-Hypothesis He2 : ad + n < U64.
+Hypothesis He2 : ad + n <= U64.
 
 (* what the loop body leaves of one old section *)
 Definition adj1 (a : Z) (d : list Z) (p : P) : sections :=
@@ -227,19 +227,18 @@ Proof.
 Qed.
 
 Lemma step_spec pre a d p t :
-  keys_lt pre a -> 0 < len d -> a + len d < U64 -> wf (a + len d) t ->
+  keys_lt pre a -> 0 <= a -> 0 < len d -> a + len d <= U64 -> wf (a + len d) t ->
   step ad n (pre ++ (a, (d, p)) :: t) (a, len d) = Ok (pre ++ adj1 a d p ++ t).
 Proof.
-  intros K L B W. unfold step, adj1. cbn [fst snd].
+  intros K A0 L B W. unfold step, adj1. cbn [fst snd].
   assert (LBt : forall k, k < a + len d -> lb k t) by (intros; eapply wf_lb; eauto).
   destruct (Z.ltb_spec a ad) as [C1|C1].
-  - rewrite (uadd_ok a (len d)) by lia. cbn [bind].
-    destruct (Z.ltb_spec ad (a + len d)) as [C2|C2]; [|reflexivity].
-    rewrite (uadd_ok ad n) by lia. cbn [bind].
+  - destruct (Z.ltb_spec ad (a + len d)) as [C2|C2]; [|reflexivity].
     destruct (Z.leb_spec (a + len d) (ad + n)) as [C3|C3].
     + rewrite bt_get_app by assumption. rewrite bt_insert_app by assumption.
       rewrite bt_insert_same. reflexivity.
-    + rewrite bt_get_app by assumption.
+    + rewrite (Z.mod_small (ad + n - a)) by lia. rewrite (Z.mod_small (ad + n)) by lia.
+      rewrite bt_get_app by assumption.
       destruct (Z.ltb_spec (len d) (ad + n - a)); [lia|].
       rewrite (bt_insert_app pre _ a) by assumption. rewrite bt_insert_same.
       rewrite (bt_insert_app pre _ (ad + n)) by (eapply keys_lt_mono; [eassumption|lia]).
@@ -247,10 +246,10 @@ Proof.
       rewrite (bt_insert_front t) by (apply LBt; lia).
       rewrite bt_get_app by assumption. rewrite bt_insert_app by assumption. rewrite bt_insert_same.
       reflexivity.
-  - rewrite (uadd_ok a (len d)) by lia. rewrite (uadd_ok ad n) by lia. cbn [bind].
-    destruct (Z.leb_spec (a + len d) (ad + n)) as [C3|C3].
+  - destruct (Z.leb_spec (a + len d) (ad + n)) as [C3|C3].
     + rewrite bt_get_app by assumption. rewrite bt_remove_app by assumption. reflexivity.
     + destruct (Z.ltb_spec a (ad + n)) as [C4|C4]; [|reflexivity].
+      rewrite (Z.mod_small (ad + n - a)) by lia. rewrite (Z.mod_small (ad + n)) by lia.
       rewrite bt_get_app by assumption.
       destruct (Z.ltb_spec (len d) (ad + n - a)); [lia|].
       rewrite bt_remove_app by assumption.
@@ -259,15 +258,15 @@ Proof.
 Qed.
 
 Lemma loop_adjust rest : forall pre lo,
-  wf lo rest -> keys_lt pre lo ->
+  0 <= lo -> wf lo rest -> keys_lt pre lo ->
   loop ad n (pre ++ rest) (snap rest) = Ok (pre ++ adjust rest).
 Proof.
-  induction rest as [|[a [d p]] t IH]; intros pre lo W K; [reflexivity|].
+  induction rest as [|[a [d p]] t IH]; intros pre lo L0 W K; [reflexivity|].
   cbn in W. destruct W as (W1 & W2 & W3 & W4).
   cbn [snap map loop fst snd adjust].
-  rewrite step_spec; [|eapply keys_lt_mono; eauto|assumption..].
+  rewrite step_spec; [|eapply keys_lt_mono; eauto|lia|assumption..].
   cbn [bind]. rewrite app_assoc. change (map _ t) with (snap t).
-  rewrite (IH (pre ++ adj1 a d p) (a + len d)); [rewrite app_assoc; reflexivity|assumption|].
+  rewrite (IH (pre ++ adj1 a d p) (a + len d)); [rewrite app_assoc; reflexivity|lia|assumption|].
   apply keys_lt_app; [eapply keys_lt_mono; [eassumption|lia]|apply adj1_keys; assumption].
 Qed.
 
@@ -395,7 +394,7 @@ Lemma set_memory_nonempty (s : sections) ad data (p : P) : 0 < len data ->
 Proof. destruct data; [unfold len; cbn; lia|reflexivity]. Qed.
 
 Theorem set_memory_spec (s : sections) ad data (p : P) :
-  wf 0 s -> 0 <= ad -> ad + len data < U64 ->
+  wf 0 s -> 0 <= ad -> ad + len data <= U64 ->
   exists s', set_memory s ad data p = Ok s' /\ wf 0 s' /\ forall x, abs s' x = overwrite (abs s) ad data p x.
 Proof.
   intros W A B. destruct (Z.eq_dec (len data) 0) as [Z0|NZ].
@@ -406,7 +405,7 @@ Proof.
     exists (bt_insert (adjust ad (len data) s) ad (data, p)). split; [|split].
     + rewrite set_memory_nonempty by assumption.
       assert (Hl : loop ad (len data) ([] ++ s) (snap s) = Ok ([] ++ adjust ad (len data) s)).
-      { eapply loop_adjust; try eassumption. constructor. }
+      { eapply loop_adjust with (lo := 0); first [assumption | lia | constructor]. }
       cbn [app] in Hl.
       rewrite Hl. reflexivity.
     + apply wf_insert_adjust; try assumption; try reflexivity; try lia.
@@ -436,7 +435,7 @@ Proof.
 Qed.
 
 Lemma find_sec_inv s : forall lo x a d p, wf lo s -> find_sec s x = Some (a, (d, p)) ->
-  bt_get s a = Some (d, p) /\ lo <= a /\ a <= x < a + len d /\ 0 < len d /\ a + len d < U64.
+  bt_get s a = Some (d, p) /\ lo <= a /\ a <= x < a + len d /\ 0 < len d /\ a + len d <= U64.
 Proof.
   induction s as [|[a0 [d0 p0]] t IH]; intros lo x a d p W F; [discriminate|].
   cbn in W. destruct W as (W1 & W2 & W3 & W4). cbn [find_sec] in F. cbn [bt_get].
@@ -481,13 +480,14 @@ Proof.
       destruct (find_sec_below t (a + len d) x W4 ltac:(lia)) as (_ & B). rewrite B.
       assert (E1 : (a <=? x) = true) by (apply Z.leb_le; lia).
       assert (E2 : (x <? a + len d) = true) by (apply Z.ltb_lt; lia).
-      rewrite ?E1. cbn iota beta. rewrite ?E1. rewrite uadd_ok by lia. cbn [bind andb]. rewrite ?E2. reflexivity.
+      assert (E3 : (x - a <? len d) = true) by (apply Z.ltb_lt; lia).
+      rewrite ?E1. cbn iota beta. rewrite ?E1. cbn [andb]. rewrite ?E3, ?E2. reflexivity.
     + assert (E : section_address ((a, (d, p)) :: t) x = section_address t x).
       { unfold section_address. cbn [bt_le].
         assert (E1 : (a <=? x) = true) by (apply Z.leb_le; lia).
-        assert (E2 : (x <? a + len d) = false) by (apply Z.ltb_ge; lia).
+        assert (E2 : (x - a <? len d) = false) by (apply Z.ltb_ge; lia).
         rewrite E1. destruct (bt_le t x) as [[a1 [d1 p1]]|]; [reflexivity|].
-        rewrite ?E1. rewrite uadd_ok by lia. cbn [bind]. rewrite E2. reflexivity. }
+        rewrite ?E1. rewrite E2. reflexivity. }
       etransitivity; [exact E|]. cbn [find_sec].
       destruct (Z.leb_spec a x); destruct (Z.ltb_spec x (a + len d)); try lia; cbn [andb].
       eapply IH; eassumption.
@@ -517,16 +517,19 @@ Proof.
 Qed.
 
 (* ------------------------------------------------------------------ get *)
-Lemma get_rest_spec s x : wf 0 s -> forall k i, x + i < U64 ->
+Lemma get_rest_spec s x : wf 0 s -> forall k i,
   get_rest s x i k = Ok (read_bytes (abs s) (x + i) k).
 Proof.
-  intros W. induction k as [|k IH]; intros i B; [reflexivity|].
-  cbn [get_rest read_bytes]. rewrite uadd_ok by assumption. cbn [bind]. rewrite get8_spec by assumption. cbn [bind].
-  unfold read8 at 2. destruct (abs s (x + i)) as [[b t]|] eqn:E; cbn [option_map fst].
-  - destruct (abs_some_bound _ _ _ _ W E) as (_ & B2). rewrite IH by lia. cbn [bind].
-    replace (x + (i + 1)) with (x + i + 1) by lia. unfold read8 at 1. rewrite E. cbn [option_map fst].
-    destruct (read_bytes (abs s) (x + i + 1) k); reflexivity.
-  - unfold read8. rewrite E. reflexivity.
+  intros W. induction k as [|k IH]; intros i; [reflexivity|].
+  cbn [get_rest read_bytes]. destruct (Z.leb_spec U64 (x + i)) as [O|O].
+  - unfold read8. destruct (abs s (x + i)) as [r|] eqn:E; [|reflexivity].
+    destruct (abs_some_bound _ _ _ _ W E). lia.
+  - rewrite get8_spec by assumption. cbn [bind].
+    unfold read8 at 2. destruct (abs s (x + i)) as [[b t]|] eqn:E; cbn [option_map fst].
+    + rewrite IH. cbn [bind].
+      replace (x + (i + 1)) with (x + i + 1) by lia. unfold read8 at 1. rewrite E. cbn [option_map fst].
+      destruct (read_bytes (abs s) (x + i + 1) k); reflexivity.
+    + unfold read8. rewrite E. reflexivity.
 Qed.
 
 Lemma le_value_app l b : le_value (l ++ [b]) = le_value l + b * 256 ^ len l.
@@ -561,7 +564,7 @@ Proof.
   { pose proof (Z.div_mod bits 8 ltac:(lia)). lia. }
   rewrite K. cbn [read_bytes]. rewrite get8_spec by assumption. cbn [bind].
   unfold read8 at 2. destruct (abs s x) as [[b t]|] eqn:E; cbn [option_map fst].
-  - destruct (abs_some_bound _ _ _ _ W E) as (_ & B2). rewrite get_rest_spec by (assumption || lia). cbn [bind].
+  - rewrite get_rest_spec by assumption. cbn [bind].
     unfold read8. rewrite E. cbn [option_map fst].
     destruct (read_bytes (abs s) (x + 1) (Z.to_nat (bits / 8 - 1))); cbn [option_map]; [|reflexivity].
     rewrite assemble_value. reflexivity.
@@ -766,8 +769,8 @@ Qed.
 (* ------------------------------------------------------------------ histories *)
 Inductive hop := HWrite (a : Z) (d : list Z) (p : P) | HSet32 (a v : Z).
 
-(* the region does not wrap the address space: its exclusive end is a u64 *)
-Definition region_ok (a : Z) (d : list Z) : Prop := 0 <= a /\ a + len d < U64.
+(* the region does not wrap the address space: it ends at or below 2^64 *)
+Definition region_ok (a : Z) (d : list Z) : Prop := 0 <= a /\ a + len d <= U64.
 Definition hop_ok (o : hop) : Prop := match o with HWrite a d _ => region_ok a d | HSet32 _ _ => True end.
 
 (* a refused set32 (Err) leaves the memory as it was; a panic ends the history *)
